@@ -104,6 +104,11 @@ func init() {
 				}
 			}
 			jobs = append(jobs, concJob("reload‖InvalidateAll/"+ex, ref, []string{"set 1", "adv 50"}, [][]string{{"load 1 val"}, {"invall"}}, or, "native", pb, false, 8, budget))
+			// the write that superseded the load has itself expired (but is not swept) when the loader returns
+			expc := CacheCfg{Expiry: "writing", TTL: 100, ClockStart: 1 << 40, Executor: ex}
+			jobs = append(jobs, concJob("missLoad‖Set;expire/"+ex, expc, nil, [][]string{{"load 1 val"}, {"set 1", "adv 100"}}, or, "native", pb, false, 8, budget, "writes-during-flight"))
+			expr := CacheCfg{Expiry: "writing", TTL: 100, Refresh: "writing", RefreshTTL: 40, ClockStart: 1 << 40, Executor: ex}
+			jobs = append(jobs, concJob("reload‖Set;expire/"+ex, expr, []string{"set 1", "adv 50"}, [][]string{{"load 1 val"}, {"set 1", "adv 100"}}, or, "native", pb, false, 8, budget, "writes-during-flight"))
 			// a manual Refresh of a fresh entry overtaken by InvalidateAll
 			jobs = append(jobs, concJob("Refresh‖InvalidateAll/"+ex, ref, []string{"set 1"}, [][]string{{"refresh 1 val"}, {"invall"}}, or, "native", pb, false, 8, budget, "writes-during-flight"))
 			jobs = append(jobs, concJob("BulkRefresh‖InvalidateAll/"+ex, ref, []string{"set 1", "set 2"}, [][]string{{"bulkrefresh 1,2 full"}, {"invall"}}, or, "native", pb, false, 8, budget, "writes-during-flight"))
